@@ -501,3 +501,19 @@ def clauses_at(fa: FuncAnalysis, n: Node):
         else:
             out.append(frozenset([literal(a, bool(p))]))
     return out
+
+
+def path_fact_sets(fa: FuncAnalysis, n: Node, words) -> List[Set[Tuple[str, bool]]]:
+    """the facts that hold at n, one set per class of paths reaching it (cfg.PathFacts tracking the atoms that contain
+    one of `words`), each merged with the facts that hold on every path; atoms are given as written and in normal form
+    (`not x` as (x, False), `a is not b` as (a is b, False))"""
+    from .cfg import canonical_atom
+    base: Set[Tuple[str, bool]] = set()
+    for a, p in fa.facts.atoms_at(n):
+        base.add((unparse(a), bool(p)))
+        ca, cp = canonical_atom(a, bool(p))
+        base.add((unparse(ca), bool(cp)))
+    ds = fa.paths_for(tuple(words)).disjuncts_at(n)
+    if not ds:
+        return [base]
+    return [base | {(t, bool(p)) for t, p in d.items()} for d in ds]
